@@ -163,8 +163,16 @@ def rule_lazy(ctx):
                             'float()')
         elif isinstance(ip, FuncV):
             g = ip.fi
-            ident = g.is_lambda and g.vararg and not g.params and isinstance(
-                g.node.body, ast.Name) and g.node.body.id == g.vararg
+            # `lambda *a: a`, or a def whose whole body returns its *args
+            body = g.node.body
+            if not g.is_lambda:
+                stmts = [st for st in body if not (
+                    isinstance(st, ast.Expr) and isinstance(
+                        st.value, ast.Constant))]
+                body = stmts[0].value if len(stmts) == 1 and isinstance(
+                    stmts[0], ast.Return) else None
+            ident = bool(g.vararg) and not g.params and not g.kwonly and \
+                isinstance(body, ast.Name) and body.id == g.vararg
             if not ident:
                 problems.append('input_parser `%s` is not the identity' %
                                 norm_src(g.node))
@@ -202,10 +210,16 @@ def rule_err(ctx):
     # the marker written by solve_circular is this object
     sc = p.func(m.rel, 'ExcelModel.solve_circular')
     rr.instances += 1
-    uses = [n for n in own_nodes(sc) if isinstance(n, ast.Call)
+    from ..util import nodes_with_helpers
+    uses = [n for _g, n in nodes_with_helpers(ctx, sc)
+            if isinstance(n, ast.Call)
             and call_name(n) in ('set_default_value', 'add_data')]
-    ok = uses and all(any(isinstance(a, ast.Name) and a.id == 'ERR_CIRCULAR'
-                          for a in n.args) for n in uses)
+    if not uses:
+        raise AnalysisError('C10.err: solve_circular (and its private '
+                            'helpers) contain no marking call')
+    ok = all(any(isinstance(a, ast.Name) and a.id == 'ERR_CIRCULAR'
+                 for a in list(n.args) + [k.value for k in n.keywords])
+             for n in uses)
     if ok:
         rr.ok('solve_circular marks cells and the CIRCULAR input with '
               'ERR_CIRCULAR', sc.module.rel)
